@@ -378,7 +378,7 @@ def run(ctx):
     # ---- nothing in the sample classes updates stored weights / densities in place (a shifted log_w is no longer L + P - Q)
     from ..report import reuse
     from . import c08, c10
-    reuse(ctx, lambda c: c10.own_rule(c, only_module="aspire.samples"), ("C10.own",), "C02own",
+    reuse(ctx, lambda c: c10.own_rule(c, only_module="aspire.samples", fields=("log_w", "weights", "log_likelihood", "log_prior", "log_q")), ("C10.own",), "C02own",
           "ownership rule shared with C10: an in-place update through an alias of self.log_w / a density field changes the stored value")
     # ---- the same functional on SMC populations: the step's evidence ratio is the log of the mean incremental weight
     reuse(ctx, c08.run, ("C08.ratio", "C08.var"), "C02smc", "identity shared with C08: log of the mean (incremental) weight over all N particles")
